@@ -1,4 +1,4 @@
-import Lt.Zone
+import Lt.Ops
 open Zone
 
 def parseInts (ws : List String) : List Int := ws.filterMap String.toInt?
@@ -38,6 +38,26 @@ partial def loop (h : IO.FS.Stream) (zones : Array (Int × List Tr)) : IO Unit :
       let (init, l) := zones[zi]!
       IO.println s!"{wallOff (f == "1") init l w}"
     | _, _ => IO.println "bad-op"
+    loop h zones
+  | ["create", zi, w, f, r] =>
+    match zi.toNat?, w.toInt? with
+    | some zi, some w =>
+      let (init, l) := zones[zi]!
+      let z : Z := ⟨init, l⟩
+      match convertNaive z ⟨w, f == "1"⟩ (r == "1") with
+      | .ok res => IO.println s!"ok {res.w} {z.woff res.fold res.w} {if res.fold then 1 else 0}"
+      | .error .nonExisting => IO.println "err NonExistingTime"
+      | .error .ambiguous => IO.println "err AmbiguousTime"
+    | _, _ => IO.println "bad-op"
+    loop h zones
+  | ["intz", zi, w, f, zj] =>
+    match zi.toNat?, w.toInt?, zj.toNat? with
+    | some zi, some w, some zj =>
+      let (i1, l1) := zones[zi]!
+      let (i2, l2) := zones[zj]!
+      let res := inTz ⟨i1, l1⟩ ⟨i2, l2⟩ ⟨w, f == "1"⟩
+      IO.println s!"ok {res.w} {(Z.mk i2 l2).woff res.fold res.w} {if res.fold then 1 else 0}"
+    | _, _, _ => IO.println "bad-op"
     loop h zones
   | _ => IO.println "bad-op"; loop h zones
 
